@@ -163,7 +163,7 @@ function_body_roundtrip = Contract(
     ],
     canaries=["len(result.body) == 1"],
 )
-function_body_roundtrip.opaque = {"to_docstring": {"ret": "str"}, "ast_parse_fix": {"ret": ("obj", "ast.expr")}, "get_docstring": {"ret": "none"},
+function_body_roundtrip.opaque = {"to_docstring": {"ret": "str", "havoc_prose": True}, "ast_parse_fix": {"ret": ("obj", "ast.expr")}, "get_docstring": {"ret": "none"},
                                   "to_code": {"ret": "str"}, "_to_code": {"ret": "str"}, "ast.parse": {"ret": ("obj", "ast.Module")}}
 CONTRACTS.append(function_body_roundtrip)
 
@@ -189,7 +189,7 @@ call_body_roundtrip = Contract(
     ],
     canaries=["len(result.body) == 1"],
 )
-call_body_roundtrip.opaque = {"to_docstring": {"ret": "str"}, "get_docstring": {"ret": "none"}, "to_code": {"ret": "str"}, "_to_code": {"ret": "str"}}
+call_body_roundtrip.opaque = {"to_docstring": {"ret": "str", "havoc_prose": True}, "get_docstring": {"ret": "none"}, "to_code": {"ret": "str"}, "_to_code": {"ret": "str"}}
 CONTRACTS.append(call_body_roundtrip)
 
 # ------------------------------------------------------------------------------------------- _merge_inner_function (C07 / C19: which __init__ is merged)
@@ -359,7 +359,7 @@ class_roundtrip = Contract(
     ],
     canaries=["len(result['params']) == 0"],
 )
-class_roundtrip.opaque = {"to_docstring": {"ret": "str"}, "get_docstring": {"ret": "none"}, "to_code": {"ret": "str", "unparse_names": True}}
+class_roundtrip.opaque = {"to_docstring": {"ret": "str", "havoc_prose": True}, "get_docstring": {"ret": "none"}, "to_code": {"ret": "str", "unparse_names": True}}
 CONTRACTS.append(class_roundtrip)
 
 # ------------------------------------------------------------------------------------------- law: a chain of two kinds (C05-L)
@@ -380,6 +380,162 @@ chain_class_argparse = Contract(
     ],
     canaries=["result['params']['alpha']['default'] == 0"],
 )
-chain_class_argparse.opaque = {"to_docstring": {"ret": "str"}, "get_docstring": {"ret": "none"}, "to_code": {"ret": "str", "unparse_names": True}, "docstring": {"ret": "str"}, "indent": {"ret": "str"},
+chain_class_argparse.opaque = {"to_docstring": {"ret": "str", "havoc_prose": True}, "get_docstring": {"ret": "none"}, "to_code": {"ret": "str", "unparse_names": True}, "docstring": {"ret": "str"}, "indent": {"ret": "str"},
                                "parse_docstring": {"ret": ("obj", None)}}
 CONTRACTS.append(chain_class_argparse)
+
+_CH_OPAQUE = {"to_docstring": {"ret": "str", "havoc_prose": True}, "get_docstring": {"ret": "none"}, "to_code": {"ret": "str", "unparse_names": True}, "_to_code": {"ret": "str", "unparse_names": True},
+              "docstring": {"ret": "str"}, "indent": {"ret": "str"}, "parse_docstring": {"ret": ("obj", None)}, "ast_parse_fix": {"ret": ("obj", "ast.expr")}}
+_CH_IR = ("dict", {"name": "str", "doc": "str", "returns": None, "params": ("dict", {"alpha": ("dict", {"typ": ("lit", "int"), "doc": ("lit", "the first"), "default": "int"})})})
+
+chain_argparse_class = Contract(
+    "vf.contracts.laws:chain_argparse_class",
+    properties=["C05"],
+    note="C05, deductively, for the chain argparse then class on a description with one int parameter with a symbolic default (as chain_class_argparse)",
+    cases=[Case("one-int-param", {"ir": _CH_IR}, assume=["not (len(ir['doc']) > 2 and ir['doc'][0] == ir['doc'][-1] and ir['doc'][0] in ('\"', \"'\"))"])],
+    use_contract_for=["doctrans.defaults_utils:needs_quoting", "doctrans.defaults_utils:extract_default"],
+    ensures=[
+        Clause("CH2-names", "list(result['params'].keys()) == ['alpha']"),
+        Clause("CH2-default", "result['params']['alpha']['default'] == old_ir['params']['alpha']['default'] and typeis(result['params']['alpha']['default'], 'int')",
+               note="C05: the default survives both hops with value and type"),
+        Clause("CH2-typ", "result['params']['alpha']['typ'] == 'int'"),
+        Clause("CH2-frame", "unchanged(ir, old_ir)"),
+    ],
+    canaries=["result['params']['alpha']['default'] == 0"],
+)
+chain_argparse_class.opaque = _CH_OPAQUE
+CONTRACTS.append(chain_argparse_class)
+
+chain_class_function = Contract(
+    "vf.contracts.laws:chain_class_function",
+    properties=["C05"],
+    note="C05, deductively, for the chain class then function (signature) on the same description",
+    cases=[Case("one-int-param", {"ir": _CH_IR})],
+    use_contract_for=["doctrans.defaults_utils:needs_quoting", "doctrans.defaults_utils:extract_default"],
+    ensures=[
+        Clause("CH3-names", "list(result['params'].keys()) == ['alpha']"),
+        Clause("CH3-default", "result['params']['alpha']['default'] == old_ir['params']['alpha']['default'] and typeis(result['params']['alpha']['default'], 'int')"),
+        Clause("CH3-typ", "result['params']['alpha']['typ'] == 'int'"),
+        Clause("CH3-frame", "unchanged(ir, old_ir)"),
+    ],
+    canaries=["result['params']['alpha']['default'] == 0"],
+)
+chain_class_function.opaque = _CH_OPAQUE
+CONTRACTS.append(chain_class_function)
+
+
+def _chain_contract(fname, what, assume=()):
+    c = Contract(
+        "vf.contracts.laws:" + fname,
+        properties=["C05"],
+        note="C05, deductively, for the chain %s on a description with one int parameter with a symbolic default (as chain_class_argparse)" % what,
+        cases=[Case("one-int-param", {"ir": _CH_IR}, assume=list(assume))],
+        use_contract_for=["doctrans.defaults_utils:needs_quoting", "doctrans.defaults_utils:extract_default"],
+        ensures=[
+            Clause("CHX-names", "list(result['params'].keys()) == ['alpha']"),
+            Clause("CHX-default", "result['params']['alpha']['default'] == old_ir['params']['alpha']['default'] and typeis(result['params']['alpha']['default'], 'int')",
+                   note="C05: the default survives both hops with value and type"),
+            Clause("CHX-typ", "result['params']['alpha']['typ'] == 'int'"),
+            Clause("CHX-frame", "unchanged(ir, old_ir)"),
+        ],
+        canaries=["result['params']['alpha']['default'] == 0"],
+    )
+    c.opaque = _CH_OPAQUE
+    return c
+
+
+_NQ_DOC = ["not (len(ir['doc']) > 2 and ir['doc'][0] == ir['doc'][-1] and ir['doc'][0] in ('\"', \"'\"))"]
+# (function then argparse is not among them: with the function's docstring opaque the intermediate description has no summary, which the argparse emitter needs -
+#  the modelled composite would not be the real one)
+CONTRACTS += [_chain_contract("chain_function_class", "function then class"), _chain_contract("chain_argparse_function", "argparse then function", _NQ_DOC)]
+
+# ------------------------------------------------------------------------------------------- law: the class round trip on the DOCUMENTED path
+_DOCSTRING_IR = ("dict", {"name": None, "doc": "str", "params": ("dict", {"alpha": ("dict", {"doc": "str", "default": ("opt", "int")})}), "returns": None})
+class_roundtrip_documented = Contract(
+    "vf.contracts.laws:class_roundtrip_documented",
+    properties=["C02", "C05"],
+    note="the same composite as class_roundtrip, on the path the emitted (documented) class really takes: get_docstring answers SOME text and the docstring parser answers an "
+         "ARBITRARY description of the parameter of the shape the emitted docstring can give (emit_types=False: any prose and no type; with or without a default "
+         "of its own, which the prose may suggest): the attribute's default and type win, whatever the docstring said",
+    cases=[Case("one-param", {"ir": ("dict", {"name": "str", "doc": "str", "returns": None, "params": ("dict", {
+        "alpha": ("dict", {"typ": ("lit", "int"), "doc": "str", "default": "int"})})})})],
+    use_contract_for=["doctrans.defaults_utils:needs_quoting", "doctrans.defaults_utils:extract_default"],
+    ensures=[
+        Clause("CLD-names", "list(result['params'].keys()) == ['alpha']"),
+        Clause("CLD-default", "result['params']['alpha']['default'] == old_ir['params']['alpha']['default'] and typeis(result['params']['alpha']['default'], 'int')",
+               note="C02: the attribute's value is the default - also when the docstring's own text suggested another one"),
+        Clause("CLD-typ", "result['params']['alpha']['typ'] == 'int' or (result['params']['alpha']['typ'] == 'Optional[int]')",
+               note="the annotation is the type (prose that opens with 'Optional' may wrap it: _set_name_and_type SNT-typ)"),
+        Clause("CLD-frame", "unchanged(ir, old_ir)"),
+    ],
+    canaries=["result['params']['alpha']['default'] == 0", "result['params']['alpha']['default'] != 0"],
+)
+class_roundtrip_documented.opaque = {"to_docstring": {"ret": "str", "havoc_prose": True}, "get_docstring": {"ret": "str"}, "to_code": {"ret": "str", "unparse_names": True},
+                                     "docstring": {"ret": _DOCSTRING_IR}}
+CONTRACTS.append(class_roundtrip_documented)
+
+# ------------------------------------------------------------------------------------------- law: the function round trip on the DOCUMENTED path
+_DOCSTRING_IR_FN = ("dict", {"name": None, "doc": "str", "params": ("dict", {"p0": ("dict", {"doc": "str"}), "p1": ("dict", {"doc": "str"})}), "returns": None})
+function_roundtrip_documented = Contract(
+    "vf.contracts.laws:function_roundtrip_documented",
+    properties=["C03", "C05"],
+    note="the same composite as function_signature_roundtrip, on the path the emitted (documented) def really takes: get_docstring answers SOME text and the docstring parser "
+         "answers an ARBITRARY description of the two parameters of the shape the emitted docstring gives (inline types: prose only; prose that announces no default): "
+         "ir_merge (real, inlined) then fills types and defaults in from the signature",
+    cases=[Case("positional", {"ir": ("dict", {"name": "str", "type": ("lit", "static"), "doc": "str", "returns": None, "params": ("dict", {
+        "p0": ("dict", {"typ": ("lit", "int"), "doc": "str"}), "p1": ("dict", {"typ": ("lit", "int"), "doc": "str", "default": "int"})})}), "kwonly": False},
+        assume=["ir['name'] != ''"])],
+    use_contract_for=["doctrans.defaults_utils:needs_quoting", "doctrans.defaults_utils:extract_default"],
+    ensures=[
+        Clause("FRD-name", "result['name'] == old_ir['name']"),
+        Clause("FRD-names", "list(result['params'].keys()) == ['p0', 'p1']", note="every parameter once, in order (docstring order = signature order)"),
+        Clause("FRD-default", "result['params']['p1']['default'] == old_ir['params']['p1']['default'] and typeis(result['params']['p1']['default'], 'int')",
+               note="C03: the signature's default is the default (zero included - ir_merge tests membership in none_types, not truthiness)"),
+        Clause("FRD-typ", "result['params']['p1']['typ'] == 'int' or result['params']['p1']['typ'] == 'Optional[int]'",
+               note="the annotation fills the type the docstring does not carry (prose that opens with 'Optional' may wrap it: SNT-typ)"),
+        Clause("FRD-frame", "unchanged(ir, old_ir)"),
+    ],
+    canaries=["result['params']['p1']['default'] == 0"],
+)
+function_roundtrip_documented.opaque = {"to_docstring": {"ret": "str", "havoc_prose": True}, "ast_parse_fix": {"ret": ("obj", "ast.expr")}, "get_docstring": {"ret": "str"},
+                                        "to_code": {"ret": "str", "unparse_names": True}, "_to_code": {"ret": "str", "unparse_names": True}, "docstring": {"ret": _DOCSTRING_IR_FN}}
+CONTRACTS.append(function_roundtrip_documented)
+function_roundtrip_documented.allow_unordered = True  # ir_merge's `&` loop: order-independence is the audit obligation unordered[parser_utils:ir_merge@...] (see parser_utils.ir_merge)
+
+# ------------------------------------------------------------------------------------------- laws: the two-hop chains on the DOCUMENTED path
+# get_docstring answers SOME text everywhere; parse.py's `docstring` (the docstring parser) answers an arbitrary description of the one parameter of the shape the
+# emitted docstrings give (prose only: to_docstring(emit_types=False) / inline types), emit.py's `docstring` (the argparse emitter's own docstring) is a text.
+_CHD_IR = ("dict", {"name": None, "doc": "str", "params": ("dict", {"alpha": ("dict", {"doc": "str"})}), "returns": None})
+_CHD_OPAQUE = {"to_docstring": {"ret": "str", "havoc_prose": True}, "get_docstring": {"ret": "str"}, "to_code": {"ret": "str", "unparse_names": True},
+               "_to_code": {"ret": "str", "unparse_names": True}, "doctrans.parse:docstring": {"ret": _CHD_IR}, "doctrans.emit:docstring": {"ret": "str"},
+               "indent": {"ret": "str"}, "parse_docstring": {"ret": ("obj", None)}, "ast_parse_fix": {"ret": ("obj", "ast.expr")}}
+
+
+def _chain_documented(fname, what, assume=()):
+    c = Contract(
+        "vf.contracts.laws:" + fname,
+        properties=["C05"],
+        note="C05, deductively, for the chain %s on the DOCUMENTED path of both hops (as class_roundtrip_documented / function_roundtrip_documented: the docstring parser's "
+             "answer is an arbitrary description of the parameter, prose only): one int parameter with a symbolic default.  No claim about the type text: prose that opens "
+             "with 'Optional' makes the first hop answer Optional[int] (SNT-typ), which the second hop writes through the opaque renderer" % what,
+        cases=[Case("one-int-param", {"ir": _CH_IR}, assume=list(assume))],
+        use_contract_for=["doctrans.defaults_utils:needs_quoting", "doctrans.defaults_utils:extract_default"],
+        ensures=[
+            Clause("CHD-names", "list(result['params'].keys()) == ['alpha']"),
+            Clause("CHD-default", "'default' in result['params']['alpha'] and result['params']['alpha']['default'] == old_ir['params']['alpha']['default'] "
+                                  "and typeis(result['params']['alpha']['default'], 'int')", note="C05: the default survives both hops with value and type"),
+            Clause("CHD-frame", "unchanged(ir, old_ir)"),
+        ],
+        canaries=["result['params']['alpha']['default'] == 0"],
+    )
+    c.opaque = _CHD_OPAQUE
+    c.allow_unordered = True  # ir_merge's `&` loop (audit obligation unordered[parser_utils:ir_merge@...])
+    return c
+
+
+CONTRACTS += [_chain_documented("chain_class_function_documented", "class then function"), _chain_documented("chain_function_class_documented", "function then class"),
+              _chain_documented("chain_function_argparse_documented", "function then argparse", _NQ_DOC), _chain_documented("chain_class_argparse_documented", "class then argparse", _NQ_DOC),
+              _chain_documented("chain_argparse_class_documented", "argparse then class", _NQ_DOC), _chain_documented("chain_argparse_function_documented", "argparse then function", _NQ_DOC)]
+for _c in CONTRACTS:
+    if _c.func == "vf.contracts.laws:chain_class_argparse_documented":
+        _c.cases[0].tier = "thorough"  # ~1000 return paths, 80 s: part of the thorough tier only
